@@ -31,9 +31,23 @@ type genCtx struct {
 
 func (g *genCtx) cls(s string) { g.classes[s] = true }
 
+// pct is true with probability of about p percent (granularity 5 %). rapid's integer generators
+// are deliberately biased towards small values, SampledFrom is close to uniform; false comes
+// first so that shrinking moves towards "feature absent".
 func (g *genCtx) pct(label string, p int) bool {
-	return rapid.IntRange(0, 99).Draw(g.t, label) < p
+	k := (p + 2) / 5
+	if k == 0 && p > 0 {
+		k = 1
+	}
+	return rapid.SampledFrom(pctSlots[:]).Draw(g.t, label) >= 20-k
 }
+
+var pctSlots = func() (a [20]int) {
+	for i := range a {
+		a[i] = i
+	}
+	return
+}()
 
 func pick[T any](g *genCtx, label string, xs ...T) T {
 	return rapid.SampledFrom(xs).Draw(g.t, label)
@@ -229,7 +243,7 @@ func (g *genCtx) virtualService(name string) M {
 		spec["exportTo"] = g.emptyOr("vs-exportTo", 50, L{}, L{"."})
 	}
 	// http present in most objects (the matches strategy needs spec.http)
-	if g.pct("vs-http", 88) {
+	if g.pct("vs-http", 95) {
 		var rules L
 		for i, n := 0, pick(g, "vs-nhttp", 0, 1, 1, 1, 2, 2, 3); i < n; i++ {
 			rules = append(rules, g.httpRule(fmt.Sprintf("http%d", i)))
@@ -266,7 +280,7 @@ func (g *genCtx) virtualService(name string) M {
 
 func (g *genCtx) destinationRule(name string) M {
 	spec := M{"host": g.stable}
-	if g.pct("dr-subsets", 93) {
+	if g.pct("dr-subsets", 95) {
 		var subs L
 		for i, n := 0, rapid.IntRange(0, 3).Draw(g.t, "dr-nsub"); i < n; i++ {
 			s := M{"name": pick(g, "dr-subname", "base", "v1", "stable", "v2")}
@@ -609,9 +623,20 @@ func genCase(t *rapid.T, o genOpts) *Case {
 			// steer away from exactly the input class of the listed finding: an empty
 			// container below spec under a null-pruning API server
 			vlib.Excluded(o.check, sigPrunedLivelock)
-			stripEmpties(obj["spec"])
-			if s, ok := obj["spec"].(M); ok && len(s) == 0 {
+			if ns, empty := stripEmpties(obj["spec"]); empty {
 				delete(obj, "spec")
+			} else {
+				obj["spec"] = ns
+			}
+			if fam == "vs" {
+				spec, _ := obj["spec"].(M)
+				if spec == nil {
+					spec = M{}
+					obj["spec"] = spec
+				}
+				if _, ok := spec["hosts"]; !ok {
+					spec["hosts"] = L{"*"}
+				}
 			}
 			g.empties = before
 		}
@@ -655,26 +680,29 @@ func genCase(t *rapid.T, o genOpts) *Case {
 	return c
 }
 
-// stripEmpties removes empty containers (recursively, bottom-up) from maps; inside lists an
-// empty container element is replaced by a non-empty placeholder map.
-func stripEmpties(v interface{}) bool {
+// stripEmpties returns v without empty containers (recursively, bottom-up: a container that
+// becomes empty is removed from its parent too) and whether v itself ended up empty.
+func stripEmpties(v interface{}) (interface{}, bool) {
 	switch x := v.(type) {
 	case M:
 		for k, e := range x {
-			if stripEmpties(e) {
+			if ne, empty := stripEmpties(e); empty {
 				delete(x, k)
+			} else {
+				x[k] = ne
 			}
 		}
-		return len(x) == 0
+		return x, len(x) == 0
 	case L:
-		for i, e := range x {
-			if stripEmpties(e) {
-				x[i] = M{"placeholder": true}
+		out := L{}
+		for _, e := range x {
+			if ne, empty := stripEmpties(e); !empty {
+				out = append(out, ne)
 			}
 		}
-		return len(x) == 0
+		return out, len(out) == 0
 	}
-	return false
+	return v, false
 }
 
 func (c *Case) hasClass(s string) bool {
